@@ -323,13 +323,16 @@ impl Property for C30 {
             return Ok((json!({"miri": "thorough tier only"}), vec![]));
         }
         let base = mix(&[seed, 0x4d31]) % 1_000_000;
-        let mut jobs = vec![miri::Job {
-            mode: "c30-history",
-            workload_seed: base,
-            workload_count: 96,
-            miri_seeds: 4,
-            flags: miri::FLAGS_STRICT,
-        }];
+        let mut jobs = vec![];
+        for k in 0..8 {
+            jobs.push(miri::Job {
+                mode: "c30-history",
+                workload_seed: base + 100 * k,
+                workload_count: 16,
+                miri_seeds: 2,
+                flags: miri::FLAGS_STRICT,
+            });
+        }
         for k in 0..8 {
             jobs.push(miri::Job {
                 mode: "c30-free",
@@ -339,17 +342,15 @@ impl Property for C30 {
                 flags: miri::FLAGS_STRICT,
             });
         }
-        let mut evidence = vec![];
-        let mut violations = vec![];
-        for job in &jobs {
-            let out = miri::run_job(job)?;
-            evidence.push(out.evidence);
-            if let Some(v) = out.violation {
-                violations.push(v);
-                break;
-            }
+        // the first job alone (it builds the crate), the rest four at a time
+        let first = jobs.remove(0);
+        let (mut ev, mut violations) = miri::run_jobs(vec![first], 1)?;
+        let (ev2, v2) = miri::run_jobs(jobs, 4)?;
+        if let (Some(a), Some(b)) = (ev["miri"].as_array_mut(), ev2["miri"].as_array()) {
+            a.extend(b.iter().cloned());
         }
-        Ok((json!({"miri": evidence}), violations))
+        violations.extend(v2);
+        Ok((ev, violations))
     }
 
     fn minimise(&self, case: &J, class: &str) -> (J, u64) {
